@@ -175,26 +175,29 @@ Definition end_table_cell := w (R "</td>" ++ NLs).
 Definition end_table_row := w (R "</tr>" ++ NLs).
 Definition end_verse := w (R "</div>" ++ NLs).
 Definition end_verse_line := w (R "</span><br />" ++ NLs).
-Definition process_link (l : str) : str := match l with [] => [] | _ => html_escape (url_norm l) end.
+Definition process_link (l : str) (k : str -> st -> st) (s : st) : st :=
+  match l with [] => k [] s | _ => with_url l (fun n => k (html_escape n)) s end.
 Fixpoint base_name (l : str) (cur : str) : str :=
   match l with [] => rev cur | c :: r => if c =? 47 then base_name r [] else base_name r (c :: cur) end.
-Definition img_src (image : str) (s : st) : str :=
-  if epub s then R "images/" ++ html_escape (url_norm (base_name image [])) else html_escape (url_norm image).
+Definition img_src (image : str) (k : str -> st -> st) (s : st) : st :=
+  if epub s then with_url (base_name image []) (fun n => k (R "images/" ++ html_escape n)) s
+  else with_url image (fun n => k (html_escape n)) s.
 Definition figure_image (image caption link alt : str) (s : st) : st :=
-  let u := img_src image s in
-  let lk := if epub s then [] else process_link link in
+  img_src image (fun u => process_link link (fun lk0 s =>
+  let lk := if epub s then [] else lk0 in
   let alt1 := match alt, caption with [], (_ :: _) => caption | _, _ => html_escape alt end in
   let img := R "<img src=""" ++ u ++ R """ alt=""" ++ alt1 ++ R """ />" in
   w (R "<div id=""fig" ++ dec (fig s) ++ R """ class=""figure"">" ++ NLs ++
      (match lk with [] => R "  " ++ img ++ NLs | _ => R "  <a href=""" ++ lk ++ R """>" ++ img ++ R "</a>" ++ NLs end) ++
      (match caption with [] => [] | _ => R "  <p class=""caption"">" ++ caption ++ R "</p>" ++ NLs end) ++
-     R "</div>" ++ NLs) s.
+     R "</div>" ++ NLs) s)) s.
 Definition inline_image (image link id punct alt : str) (s : st) : st :=
-  let u := img_src image s in
-  let lk := if epub s then [] else process_link link in
+  img_src image (fun u => process_link link (fun lk0 s =>
+  let lk := if epub s then [] else lk0 in
   let img := R "<img src=""" ++ u ++ R """ alt=""" ++ html_escape alt ++ R """" ++ idattr id ++ R " />" in
-  w (match lk with [] => img ++ punct | _ => R "<a href=""" ++ lk ++ R """>" ++ img ++ R "</a>" ++ punct end) s.
-Definition lk_with_label (uri label punct : str) := w (R "<a href=""" ++ html_escape (url_norm uri) ++ R """>" ++ label ++ R "</a>" ++ punct).
+  w (match lk with [] => img ++ punct | _ => R "<a href=""" ++ lk ++ R """>" ++ img ++ R "</a>" ++ punct end) s)) s.
+Definition lk_with_label (uri label punct : str) : st -> st :=
+  with_url uri (fun u => w (R "<a href=""" ++ html_escape u ++ R """>" ++ label ++ R "</a>" ++ punct)).
 Definition lk_without_label (uri punct : str) := lk_with_label uri (html_escape uri) punct.
 Definition paragraph_title (t : str) := w (R "<p class=""paragraph""><strong class=""paragraph"">" ++ t ++ R "</strong>" ++ NLs).
 
